@@ -12,7 +12,9 @@
   The model is parameterised by the two repairs proposed in notes/fixes (white-space class `W`,
   `cdFix`); theorems are stated for every `W` unless they say `isXmlWs`, and the `_counterexample`
   theorems exhibit the pinned behaviour (`isPyWs`, `cdFix := false`).
-  float/double value space and `pattern` facets have no Lean semantics (oracle `P`).
+  The float/double value space has no Lean semantics (oracle).  `pattern` facets: a regular-expression subset is
+  evaluated by the model (section 9, `Model/DatatypesPat`), the other patterns stay an oracle `P`; section 9 also
+  covers the patterns of restricted unions, which travel through the validation context (`decodeS`).
 -/
 import XsVerif.Model.Datatypes
 import XsVerif.Model.DatatypesDate
@@ -25,6 +27,7 @@ import XsVerif.Lemmas.DatatypesWs
 import XsVerif.Lemmas.DatatypesBin
 import XsVerif.Lemmas.DatatypesDateLex
 import XsVerif.Lemmas.DatatypesDateRt
+import XsVerif.Lemmas.DatatypesPat
 
 namespace XsVerif.Props.C02
 open XsVerif.Datatypes XsVerif.Generated
@@ -542,5 +545,204 @@ theorem date_roundtrip_counterexample :
     dateStr true ⟨.date, -10000, 1, 1, 0, 0, 0, 0, none⟩ = "-10000-01-01".toList ∧
     parseDt .date true "-10000-01-01".toList = some ⟨.date, -10001, 1, 1, 0, 0, 0, 0, none⟩ :=
   XsVerif.Datatypes.date_roundtrip_counterexample
+
+/-! ## 10. pattern facets (regular-expression subset) and the patterns of restricted unions -/
+
+/-- the matcher the model runs for the patterns of the subset decides the language of the expression
+    (`Rx.Lang`: ∅, ε, character class, concatenation, alternation, counted repetition; anchored) -/
+theorem pattern_matcher_decides (r : CRx) (s : Str) : rxMatch r s = true ↔ CRx.Lang r s := rxMatch_iff r s
+
+/-- `[0-9]{3}|true` -/
+def exCode : CRx := .alt (.rep (.sym ⟨false, [(48, 57)]⟩) 3 (some 3))
+  (.cat (.sym ⟨false, [(116, 116)]⟩) (.cat (.sym ⟨false, [(114, 114)]⟩) (.cat (.sym ⟨false, [(117, 117)]⟩)
+    (.sym ⟨false, [(101, 101)]⟩))))
+example : rxMatch exCode "123".toList = true ∧ rxMatch exCode "true".toList = true ∧
+    rxMatch exCode "12".toList = false ∧ rxMatch exCode "2020-01-01".toList = false := by decide
+
+/-- a pattern group of the table is accepted by the environment's `P` exactly for the texts in the language of
+    one of its patterns (the patterns of one derivation step are alternatives) -/
+theorem pattern_group_lang (tab : PatTable) (tr : List (Nat × Str × Bool)) (id : Nat) (g : List CRx) (t : Str)
+    (h : tab.lookup id = some g) : mkP tab tr id t = some true ↔ ∃ r ∈ g, CRx.Lang r t :=
+  mkP_table tab tr id g t h
+
+example : mkP [(7, [exCode])] [] 7 "true".toList = some true := by decide
+
+/-- whatever a decode pushes into `context.patterns` is taken out again before it returns: a decode that starts
+    with an empty slot ends with an empty slot (no pattern outlives the value it belongs to) -/
+theorem context_patterns_restored (E : Env) (C : Conv) (chain : Bool) (t : SType) (s : Str) :
+    (decodeS E C chain t [] s).2.1 = [] := slot_empty E C chain t s
+
+/-- the values of one document, decoded one after the other in one validation context, are each judged as on
+    their own: by their own type only -/
+theorem document_values_independent (E : Env) (C : Conv) (chain : Bool) :
+    ∀ items : List (SType × Str),
+      decodeSeq E C chain [] items = (items.map fun x => decodeTop E C chain x.1 x.2, [])
+  | [] => rfl
+  | (t, s) :: rest => by
+    simp only [decodeSeq, List.map_cons, decodeTop, slot_empty E C chain t s]
+    rw [document_values_independent E C chain rest]
+    rfl
+
+/-- the members of a union never see the patterns pushed for the union, and their own patterns are in force:
+    each member is decoded exactly as on its own -/
+theorem union_members_standalone (E : Env) (C : Conv) (chain : Bool) (ms : STypes) (σ : Slot) (s : Str) :
+    (decodeS E C chain (.union ms) σ s).1 =
+      unionResS E σ s (ms.toList.map fun m => (m, decodeTop E C chain m s, strictDecodeErr E C chain m s)) := by
+  simp only [decodeS, decodeAllS_standalone, decodeTop, strictDecodeErr]
+
+/-- in strict mode a union without a matching member raises a decode error, whatever its members raised: as a member
+    of another union it is skipped like a member that fails to decode (and is never the `xsd_type` of the lax retry) -/
+theorem union_strict_error_class (E : Env) (C : Conv) (chain : Bool) (ms : STypes) (s : Str) :
+    strictDecodeErr E C chain (.union ms) s = true ↔ ∀ m ∈ ms.toList, (decodeTop E C chain m s).valid = false := by
+  simp [strictDecodeErr, decodeS, decodeAllS_standalone, decodeTop]
+
+/-- a union restricted by a pattern group `p` (and facets `fs`): valid iff there is a FIRST member that accepts
+    the text, the group accepts the text as that member normalises it, and the facets hold for that member's
+    value; the value is that member's -/
+theorem union_pattern_first_match (E : Env) (C : Conv) (chain : Bool) (ms : STypes) (ws : WsMode) (p : Nat)
+    (fs : List Facet) (s : Str) :
+    ((decodeTop E C chain (.restr (.union ms) ws (some p) fs) s).valid = true ↔
+      ∃ pre m post, ms.toList = pre ++ m :: post ∧
+        (∀ u ∈ pre, (decodeTop E C chain u (normalize E.W ws s)).valid = false) ∧
+        (decodeTop E C chain m (normalize E.W ws s)).valid = true ∧
+        E.P p (normalize E.W (wsOf m) (normalize E.W ws s)) = some true ∧
+        ((decodeTop E C chain m (normalize E.W ws s)).val ≠ .none →
+          ∀ f ∈ fs, f.ok E (decodeTop E C chain m (normalize E.W ws s)).val = true)) ∧
+    (∀ pre m post, ms.toList = pre ++ m :: post →
+        (∀ u ∈ pre, (decodeTop E C chain u (normalize E.W ws s)).valid = false) →
+        (decodeTop E C chain m (normalize E.W ws s)).valid = true →
+        (decodeTop E C chain (.restr (.union ms) ws (some p) fs) s).val =
+          (decodeTop E C chain m (normalize E.W ws s)).val) := by
+  have hform : decodeTop E C chain (.restr (.union ms) ws (some p) fs) s =
+      ⟨(unionResS E [p] (normalize E.W ws s)
+          (ms.toList.map fun m => (m, decodeTop E C chain m (normalize E.W ws s),
+            strictDecodeErr E C chain m (normalize E.W ws s)))).val,
+        (unionResS E [p] (normalize E.W ws s)
+          (ms.toList.map fun m => (m, decodeTop E C chain m (normalize E.W ws s),
+            strictDecodeErr E C chain m (normalize E.W ws s)))).errs ++
+        (match (unionResS E [p] (normalize E.W ws s)
+          (ms.toList.map fun m => (m, decodeTop E C chain m (normalize E.W ws s),
+            strictDecodeErr E C chain m (normalize E.W ws s)))).val with
+          | .none => []
+          | v => facetErrs E fs v)⟩ := by
+    simp [decodeTop, strictDecodeErr, decodeS, primIsUnion, push, decodeAllS_standalone]
+    generalize (unionResS E [p] _ _).val = v
+    cases v <;> rfl
+  generalize hrs : (ms.toList.map fun m => (m, decodeTop E C chain m (normalize E.W ws s),
+    strictDecodeErr E C chain m (normalize E.W ws s))) = rs at hform
+  have hsplit : ∀ x, firstValidM rs = some x ↔ ∃ pre m post, ms.toList = pre ++ m :: post ∧
+      (∀ u ∈ pre, (decodeTop E C chain u (normalize E.W ws s)).valid = false) ∧
+      (decodeTop E C chain m (normalize E.W ws s)).valid = true ∧
+      x = (m, decodeTop E C chain m (normalize E.W ws s), strictDecodeErr E C chain m (normalize E.W ws s)) := by
+    intro x
+    rw [firstValidM_some_iff, ← hrs]
+    constructor
+    · rintro ⟨pre', post', h, hpre, hx⟩
+      obtain ⟨pre, rest, hL, hpre_eq, hrest⟩ := List.map_eq_append_iff.mp h
+      obtain ⟨m, post, hrest_eq, hm, hpost⟩ := List.map_eq_cons_iff.mp hrest
+      refine ⟨pre, m, post, by rw [hL, hrest_eq], ?_, ?_, hm.symm⟩
+      · intro u hu
+        have := hpre (u, decodeTop E C chain u (normalize E.W ws s), strictDecodeErr E C chain u (normalize E.W ws s)) (by
+          rw [← hpre_eq]; exact List.mem_map.mpr ⟨u, hu, rfl⟩)
+        exact this
+      · rw [← hm] at hx; exact hx
+    · rintro ⟨pre, m, post, hL, hpre, hm, rfl⟩
+      refine ⟨pre.map (fun m => (m, decodeTop E C chain m (normalize E.W ws s),
+          strictDecodeErr E C chain m (normalize E.W ws s))),
+        post.map (fun m => (m, decodeTop E C chain m (normalize E.W ws s),
+          strictDecodeErr E C chain m (normalize E.W ws s))), by simp [hL], ?_, hm⟩
+      intro y hy
+      obtain ⟨u, hu, rfl⟩ := List.mem_map.mp hy
+      exact hpre u hu
+  constructor
+  · rw [hform]
+    have hmk : ∀ (v : Val) (e : List Err), (Res.mk v e).valid = true ↔ e = [] := by
+      intro v e; simp [Res.valid]
+    have hU : (unionResS E [p] (normalize E.W ws s) rs).errs = [] ↔
+        (unionResS E [p] (normalize E.W ws s) rs).valid = true := by simp [Res.valid]
+    rw [hmk, List.append_eq_nil_iff, hU, unionResS_valid_iff E [p] (normalize E.W ws s) rs]
+    constructor
+    · rintro ⟨⟨x, hx, hpat⟩, hfac⟩
+      obtain ⟨pre, m, post, hL, hpre, hm, rfl⟩ := (hsplit x).mp hx
+      refine ⟨pre, m, post, hL, hpre, hm, ?_, ?_⟩
+      · rw [slotErrs_single] at hpat
+        exact (patErrs_nil_iff E (some p) _).mp hpat p rfl
+      · intro hne
+        rw [unionResS_val E [p] _ rs _ hx] at hfac
+        cases hval : (decodeTop E C chain m (normalize E.W ws s)).val with
+        | none => exact absurd hval hne
+        | atom a => simp only [hval] at hfac; exact (facetErrs_nil_iff E fs _).mp hfac
+        | list l => simp only [hval] at hfac; exact (facetErrs_nil_iff E fs _).mp hfac
+    · rintro ⟨pre, m, post, hL, hpre, hm, hpat, hfac⟩
+      have hx := (hsplit (m, decodeTop E C chain m (normalize E.W ws s),
+        strictDecodeErr E C chain m (normalize E.W ws s))).mpr ⟨pre, m, post, hL, hpre, hm, rfl⟩
+      refine ⟨⟨_, hx, ?_⟩, ?_⟩
+      · rw [slotErrs_single]
+        exact (patErrs_nil_iff E (some p) _).mpr (fun id hid => by cases hid; exact hpat)
+      · rw [unionResS_val E [p] _ rs _ hx]
+        cases hval : (decodeTop E C chain m (normalize E.W ws s)).val with
+        | none => rfl
+        | atom a => simp only [hval] at hfac ⊢; exact (facetErrs_nil_iff E fs _).mpr (hfac (by simp))
+        | list l => simp only [hval] at hfac ⊢; exact (facetErrs_nil_iff E fs _).mpr (hfac (by simp))
+  · intro pre m post hL hpre hm
+    have hx := (hsplit (m, decodeTop E C chain m (normalize E.W ws s),
+      strictDecodeErr E C chain m (normalize E.W ws s))).mpr ⟨pre, m, post, hL, hpre, hm, rfl⟩
+    rw [hform]
+    exact unionResS_val E [p] _ rs _ hx
+
+/-- patterns of successive derivation steps over a union are all in force (`chain := true`, the repaired
+    behaviour): a restriction of a pattern-restricted union accepts only what its base accepts, with the same value -/
+theorem restricted_union_chain (E : Env) (C : Conv) (ms : STypes) (ws1 ws2 : WsMode) (p1 p2 : Nat)
+    (fs1 fs2 : List Facet) (s : Str)
+    (h : (decodeTop E C true (.restr (.restr (.union ms) ws1 (some p1) fs1) ws2 (some p2) fs2) s).valid = true) :
+    (decodeTop E C true (.restr (.union ms) ws1 (some p1) fs1) (normalize E.W ws2 s)).valid = true ∧
+    (decodeTop E C true (.restr (.restr (.union ms) ws1 (some p1) fs1) ws2 (some p2) fs2) s).val =
+      (decodeTop E C true (.restr (.union ms) ws1 (some p1) fs1) (normalize E.W ws2 s)).val := by
+  simp only [decodeTop, decodeS, primIsUnion, push, if_true, decodeAllS_standalone, List.nil_append,
+    List.cons_append] at h ⊢
+  generalize hrs : (ms.toList.map fun m =>
+    (m, (decodeS E C true m [] (normalize E.W ws1 (normalize E.W ws2 s))).1,
+      (decodeS E C true m [] (normalize E.W ws1 (normalize E.W ws2 s))).2.2)) = rs at h ⊢
+  simp only [Res.valid, List.isEmpty_iff, List.append_eq_nil_iff] at h
+  obtain ⟨⟨hU, hf1⟩, -⟩ := h
+  have hv2 := (unionResS_valid_iff E [p2, p1] _ rs).mp (by simpa [Res.valid] using hU)
+  obtain ⟨x, hx, hs⟩ := hv2
+  have hs1 : slotErrs E [p1] (normalize E.W (wsOf x.1) (normalize E.W ws1 (normalize E.W ws2 s))) = [] := by
+    rw [slotErrs_nil_iff] at hs ⊢
+    intro p hp; exact hs p (by simp at hp; simp [hp])
+  have hv1 := (unionResS_valid_iff E [p1] _ rs).mpr ⟨x, hx, hs1⟩
+  have hval : (unionResS E [p1] (normalize E.W ws1 (normalize E.W ws2 s)) rs).val =
+      (unionResS E [p2, p1] (normalize E.W ws1 (normalize E.W ws2 s)) rs).val := by
+    rw [unionResS_val E _ _ rs x hx, unionResS_val E _ _ rs x hx]
+  refine ⟨?_, hval.symm⟩
+  simp only [Res.valid, List.isEmpty_iff, List.append_eq_nil_iff]
+  refine ⟨by simpa [Res.valid] using hv1, ?_⟩
+  rw [hval]; exact hf1
+
+/-- `int | string`, restricted by `[0-9]{3}`, restricted again by `[0-9]*` -/
+def exConv : Conv := ⟨fun _ _ _ => none, fun _ _ => none, fun _ => false, fun _ => none, fun _ => false, fun _ => none⟩
+def exPatEnv : Env := ⟨isXmlWs, true,
+  mkP [(1, [.rep (.sym ⟨false, [(48, 57)]⟩) 3 (some 3)]), (2, [.rep (.sym ⟨false, [(48, 57)]⟩) 0 none])] [],
+  fun _ _ => none, fun _ _ => none⟩
+def exIntOrString : SType :=
+  .union (.cons (.builtin { prim := .integer, ws := .collapse }) (.cons (.builtin { prim := .string, ws := .preserve }) .nil))
+def exR1 : SType := .restr exIntOrString .preserve (some 1) []
+def exR2 : SType := .restr exR1 .preserve (some 2) []
+
+example : (decodeTop exPatEnv exConv true exR2 "123".toList).valid = true := by decide
+
+/-- C02-F12 (pinned, `chain := false`): the restriction that finds `context.patterns` occupied drops its own
+    patterns, so `12` is accepted by the derived type although its base type refuses it; repaired: refused -/
+theorem pattern_chain_counterexample :
+    (decodeTop exPatEnv exConv false exR1 "12".toList).valid = false ∧
+    (decodeTop exPatEnv exConv false exR2 "12".toList).valid = true ∧
+    (decodeTop exPatEnv exConv true exR2 "12".toList).valid = false := by decide
+
+/-- types without patterns on restrictions of unions and without unions nested in unions (`flat`): the decode with
+    the context slot is the plain `decode` of sections 4-8, whose theorems (`restriction_valid_iff`, `union_first_match`, `list_itemwise`) carry over -/
+theorem decode_conservative (E : Env) (C : Conv) (chain : Bool) (t : SType) (s : Str) (h : flat t = true) :
+    decodeTop E C chain t s = decode E C t s := decodeS_flat E C chain t s h
+
+example : flat exIntOrString = true ∧ flat exR1 = false := by decide
 
 end XsVerif.Props.C02
